@@ -608,7 +608,7 @@ def exLax : Tg Int :=
 theorem exWords_crop_lax : exWords.crop 2 6 .lax false = .ok ⟨"words", [⟨1, 4, "x"⟩, ⟨5, 7, "y"⟩], 1, 7⟩ := by
   have hsel : getIvs 2 6 .lax exWords.es = exWords.es := by decide
   simp only [ITier.crop, show ¬ (6 : Int) ≤ 2 by decide, if_false, Bool.false_eq_true, hsel]
-  rw [mkITier_of_wf _ _ _ _ exWords_wf.pos exWords_wf.disj exWords_wf.stripped]
+  rw [mkITier_of_wf _ _ _ _ (by decide) exWords_wf.pos exWords_wf.disj exWords_wf.stripped]
   rfl
 
 theorem exMarks_crop_lax : exMarks.crop 2 6 false = .ok ⟨"marks", [⟨3, "p"⟩], 2, 6⟩ := by
